@@ -539,7 +539,11 @@ fn suites_tree(id: &str, tier: Tier) -> Vec<Suite> {
             progs.extend(plain(2));
             progs.sort();
             progs.dedup();
+            // the same question asked of a command that is driven as a Stream: it must end (`None`)
+            // exactly when nothing is left
+            let streamed: Vec<P> = dsl::terms_up_to(2, &{ let mut a = asy.clone(); a.push(P::Req(s0())); a.push(P::Stream(s0())); a }, Grammar::plain());
             vec![
+                Suite { name: "done-iff-nothing-left/driven-as-a-stream", host: HostKind::StreamPoll, programs: streamed, bounds: bounds(tier.pick(5, 7), 0, 1, 1, 2) },
                 Suite { name: "done-iff-nothing-left", host: HostKind::Direct, programs: progs, bounds: bounds(tier.pick(6, 9), 0, tier.pick(1, 2), 1, 2) },
                 Suite { name: "done-iff-nothing-left/aborts", host: HostKind::Direct, programs: with_abort(2), bounds: bounds(tier.pick(7, 9), 1, 1, 1, 2) },
                 Suite { name: "done-iff-nothing-left/spawn-then-self-abort", host: HostKind::Direct, programs: spawn_then_self_abort_programs(), bounds: bounds(tier.pick(7, 9), 0, 2, 1, 2) },
@@ -575,6 +579,9 @@ pub fn run_suites(rep: &Reporter, suites: &[Suite], deadline_s: f64, node_cap: u
             items.push((si, pi));
         }
     }
+    // small suites first (targeted program lists, scripted scale members): under a wall-clock cap
+    // it is the big trees that are cut short, never the suites written for a particular defect class
+    items.sort_by_key(|(si, pi)| (suites[*si].programs.len(), *si, *pi));
     let results = mc_kit::par_map(&items, |_, (si, pi)| {
         let s = &suites[*si];
         let p = &s.programs[*pi];
